@@ -39,20 +39,21 @@ HEADER = ("From Coq Require Import ZArith QArith List.\nFrom C53 Require Import 
           "Definition s3 (t : Q * Q * Q) : list Q := let '(a, b, d) := t in [a; b; d].\n")
 
 
-def coq_lists(c, evals, timeout=900):
+def coq_lists(c, evals, timeout=240):
     """evals: list of Gallina expressions of type list Q -> list of lists of Fractions (exact)"""
     res = []
     for k in range(0, len(evals), 400):
         chunk = evals[k:k + 400]
         txt = HEADER + "".join("Eval vm_compute in (outq (%s)).\n" % e for e in chunk)
-        rc, out, err = c.coq_eval(MODEL, txt, timeout=timeout)
+        rc, out, err = c.coq_eval([os.path.join(c.work, 'coq', m) for m in MODEL], txt, timeout=timeout)
         if rc != 0:
             raise vlib.BuildError("model evaluation failed: " + err[-2000:])
         blocks = re.split(r"^\s*= ", out, flags=re.M)[1:]
         if len(blocks) != len(chunk):
             raise vlib.BuildError("model evaluation: %d results for %d queries" % (len(blocks), len(chunk)))
         for b in blocks:
-            res.append([Fraction(int(a), int(d)) for a, d in re.findall(r"\((-?\d+)(?:%Z)?,\s*(\d+)(?:%Z)?\)", b)])
+            b = re.sub(r"\s+|%Z", "", b.split(":list")[0] if ":list" in b else re.sub(r"\s+", "", b).split(":list")[0])
+            res.append([Fraction(int(a), int(d)) for a, d in re.findall(r"\(\(?(-?\d+)\)?,(\d+)\)", b)])
     return res
 
 
@@ -145,7 +146,7 @@ def stage_elem(c, drv, gps):
     rng = c.rng
     cases = []
     for et in (1, 2, 3):
-        for _ in range(c.pick(6, 40)):
+        for _ in range(c.pick(2, 12)):
             Ri = rng.randrange(32, 321) / 64.0
             Re = Ri + rng.randrange(16, 193) / 64.0
             ne = rng.randrange(1, 5)
@@ -163,7 +164,7 @@ def stage_elem(c, drv, gps):
             obs.setdefault(int(t[1]), {}).setdefault("gp", []).append([float(v) for v in t[3:]])
         elif t[0] in ("R", "K"):
             obs.setdefault(int(t[1]), {})[t[0]] = [float(v) for v in t[2:]]
-    evals = []
+    evals, variant = [], []
     for (et, Ri, Re, ne, i, K, u) in cases:
         dr = (Fraction(Re) - Fraction(Ri)) / ne
         r0 = Fraction(Ri) + dr * i
@@ -174,9 +175,10 @@ def stage_elem(c, drv, gps):
         rs = "(elem_radii QNum %s %s %s)" % (e, qlit(r0), qlit(dr))
         evals.append("flat_map (fun xw => interp QNum %s %s (fst xw) :: s3 (strain QNum %s %s %s %s (fst xw))) %s" % (e, rs, e, rs, us, ezz, g))
         for flag in ("false", "true"):
-            evals.append("elem_forces QNum %s %s %s %s %s %s %s %s ++ concat (elem_stiffness QNum %s %s %s %s %s %s)" % (
-                e, flag, g, qlist(K), rs, us, ezz, qlit(TWOPI), e, flag, g, qlist(K), rs, qlit(TWOPI)))
+            (evals if flag == "false" else variant).append("elem_forces QNum %s %s %s %s %s %s %s 1 ++ concat (elem_stiffness QNum %s %s %s %s %s 1)" % (
+                e, flag, g, qlist(K), rs, us, ezz, e, flag, g, qlist(K), rs))
     mods = coq_lists(c, evals)
+    tp = Fraction(TWOPI)
     reported = set()
     for k, (et, Ri, Re, ne, i, K, u) in enumerate(cases):
         o = obs.get(k, {})
@@ -191,7 +193,7 @@ def stage_elem(c, drv, gps):
         k_loc = [k_cpp[a * n + b] for a in idx for b in idx] if loc else []
         outside = loc and (any(r_cpp[a] != 0 for a in range(n) if a not in idx) or
                            any(k_cpp[a * n + b] != 0 for a in range(n) for b in range(n) if a not in idx or b not in idx))
-        mgp, mok, mbug = mods[3 * k], mods[3 * k + 1], mods[3 * k + 2]
+        mgp, mok = mods[2 * k], [tp * v for v in mods[2 * k + 1]]
         c.count(1, ("elem", k, et), True)
         if k % 7 == 0:
             c.sample({"stage": "element", "element": ENAME[et], "Ri": Ri, "Re": Re, "ne": ne, "i": i, "K": K, "u": u,
@@ -209,6 +211,7 @@ def stage_elem(c, drv, gps):
         both = r_loc + k_loc
         if loc and not outside and grp_ok(r_loc, mok[:nl + 1]) and grp_ok(k_loc, mok[nl + 1:]):
             continue
+        mbug = [tp * v for v in coq_lists(c, [variant[k]])[0]]
         if loc and not outside and grp_ok(r_loc, mbug[:nl + 1]) and grp_ok(k_loc, mbug[nl + 1:]):
             key = "elem:%s:sf-at-radius" % ENAME[et]
             what = ("Pipe%sElement::updateStiffnessMatrixAndInnerForces evaluates the shape functions of the test function at the physical radius "
@@ -261,14 +264,16 @@ class Oracle:
         self.c, self.pb, self.cache = c, pb, {}
         a = [qlit(pb[k]) for k in ("Ri", "Re", "Pi", "Pe")]
         self.geo = " ".join(a)
-        A = coq_lists(c, ["[lameA_G QNum %s]" % self.geo])[0][0]
-        self.s = A if pb["axial"] == 1 else Fraction(0)   # szz_end_cap / szz_no_axial_force
         self.mat = "%s %s" % (qlit(pb["E"]), qlit(pb["nu"]))
-        self.ezz = coq_lists(c, ["[lame_ezz_G QNum %s %s %s]" % (self.mat, self.geo, qlit(self.s))])[0][0]
+        # szz_end_cap = lameA / szz_no_axial_force = 0 (C53Spec.v)
+        A, e1, e0 = coq_lists(c, ["let A := lameA_G QNumPlain %s in [A; lame_ezz_G QNumPlain %s %s A; lame_ezz_G QNumPlain %s %s 0]" % (
+            self.geo, self.mat, self.geo, self.mat, self.geo)])[0]
+        self.s = A if pb["axial"] == 1 else Fraction(0)
+        self.ezz = e1 if pb["axial"] == 1 else e0
 
     def at(self, rs):
         todo = [r for r in dict.fromkeys(rs) if r not in self.cache]
-        ev = ["[lame_u_G QNum %s %s %s %s; lame_srr_G QNum %s %s; lame_stt_G QNum %s %s]" % (
+        ev = ["[lame_u_G QNumPlain %s %s %s %s; lame_srr_G QNumPlain %s %s; lame_stt_G QNumPlain %s %s]" % (
             self.mat, self.geo, qlit(self.s), qlit(r), self.geo, qlit(r), self.geo, qlit(r)) for r in todo]
         for r, v in zip(todo, coq_lists(self.c, ev)):
             self.cache[r] = [float(x) for x in v]
@@ -330,6 +335,12 @@ def stage_fe(c, drv, pbs, orcs):
     for k, (ip, et, ne) in enumerate(meta):
         sol[(ip, et, ne)] = res[k]
     for ip, pb in enumerate(pbs):
+        pts = []
+        for et in (1, 2, 3):
+            for ne in NES:
+                nn = et * ne + 1
+                pts += [pb["Ri"] + (pb["Re"] - pb["Ri"]) * k / (nn - 1) for k in range(nn)] + [row[0] for row in sol[(ip, et, ne)]["S"]]
+        orcs[ip].at(pts)   # one batch per problem
         for et in (1, 2, 3):
             errs = {ne: errors(pb, orcs[ip], et, ne, sol[(ip, et, ne)]["u"], sol[(ip, et, ne)]["S"]) for ne in NES}
             c.count(len(NES), ("fe", ip, et), True)
@@ -378,9 +389,9 @@ def stage_mtest(c, pbs, orcs, sol):
     wd = os.path.join(c.work, "ptest")
     os.makedirs(wd, exist_ok=True)
     nruns = 0
+    runs = {}
     for ip, pb in enumerate(pbs):
         for et in (1, 2, 3):
-            errs, nan_ok, differs = {}, None, None
             for ne in NES:
                 name = "p%d_%s_%d" % (ip, ENAME[et], ne)
                 with open(os.path.join(wd, name + ".ptest"), "w") as f:
@@ -394,15 +405,23 @@ def stage_mtest(c, pbs, orcs, sol):
                 rc, out, err = c.run([mtest, name + ".ptest"], cwd=wd, timeout=120)
                 nruns += 1
                 success = rc == 0 and "SUCCESS" in out
-                u = S = None
                 try:
                     last = [l for l in open(os.path.join(wd, name + ".res")) if not l.startswith("#")][-1].split()
                     S = [[float(v) for v in l.split()] for l in open(os.path.join(wd, name + ".prof")) if l.strip() and not l.startswith("#")]
                     S = S[-(et + 1) * ne:]
                     uin, uout, ezz = float(last[3]), float(last[4]), float(last[5])
+                    if len(S) != (et + 1) * ne or any(len(row) != 4 for row in S):
+                        raise ValueError("profile")
+                    runs[(ip, et, ne)] = (name, success, last, S, uin, uout, ezz)
                 except (OSError, IndexError, ValueError):
-                    last = None
-                if last is None:
+                    runs[(ip, et, ne)] = (name, success, None, None, None, None, None)
+    for ip, pb in enumerate(pbs):
+        orcs[ip].at([pb["Ri"], pb["Re"]] + [row[0] for (k, r) in runs.items() if k[0] == ip and r[3] for row in r[3] if math.isfinite(row[0])])
+        for et in (1, 2, 3):
+            errs, nan_ok, differs = {}, None, None
+            for ne in NES:
+                name, success, last, S, uin, uout, ezz = runs[(ip, et, ne)]
+                if last is None or not all(math.isfinite(row[0]) for row in S):
                     errs[ne] = (float("inf"), float("inf"))
                     continue
                 finite = all(math.isfinite(v) for v in (uin, uout, ezz)) and all(math.isfinite(v) for row in S for v in row)
@@ -419,7 +438,7 @@ def stage_mtest(c, pbs, orcs, sol):
                 errs[ne] = (eu, es)
                 # agreement with the element-level driver (ties PipeTest's boundary terms / solver to our replication)
                 d = sol[(ip, et, ne)]
-                if finite and d["ok"] and vlib.REPO == "/repo":
+                if finite and d["ok"]:
                     nn = et * ne + 1
                     dd = max(abs(uin - d["u"][0]) / su, abs(uout - d["u"][nn - 1]) / su)
                     dd = max([dd] + [abs(a - b) / ss for row, drow in zip(S, d["S"]) for a, b in zip(row[1:4], drow[1:4])])
@@ -455,12 +474,17 @@ def main(c):
         c.coq_failures(res, None)
         if any(f[0] in ("C53Spec.v", "C53Model.v") for f in res.failed):
             return
+    c.log('coq done')
     gps = stage_consts(c, drv)
     nsf = stage_sf(c, drv, gps)
+    c.log('sf done')
     nel = stage_elem(c, drv, gps)
+    c.log('elem done')
     pbs = problems(c)
     orcs = [Oracle(c, pb) for pb in pbs]
+    c.log('oracle init done')
     sol = stage_fe(c, drv, pbs, orcs)
+    c.log('fe done')
     nm = 0
     if vlib.REPO == "/repo":
         nm = stage_mtest(c, pbs, orcs, sol)
